@@ -1,8 +1,8 @@
 (* Properties_C15.v — every browser report is backed by valid records and never goes stale (partial). *)
-From QV Require Import Base Fields SrcFacts Msg SrcDecisions Cache Sim Browser BrowserSpec BrowserProofs.
+From QV Require Import Base Fields SrcFacts Msg SrcDecisions Cache Sim Browser BrowserSpec BrowserProofs BrowserInv BrowserBacked.
 Local Open Scope Z_scope.
 
-(* PARTIAL (handler level).  Every description updateService reports is assembled from the cache content it sees: a PTR
+(* Handler level (a run-level statement of the first clause follows below).  Every description updateService reports is assembled from the cache content it sees: a PTR
    record named the service's type exists, the hostname and port are those of the first SRV record of the instance, the
    attributes are the merge of all its TXT records.  By C05/C06 (Properties_C05/C06) the cache content is exactly the
    unexpired, not withdrawn records - and since the expiry announcement now follows the removal (fix recorded in
@@ -22,3 +22,21 @@ Proof.
     destruct H as [H|[]]; injection H as _ <-; split; try exact P; exists srv; auto.
 Qed.
 Print Assumptions C15_report_assembled_from_cache_partial.
+
+(* ---- run level, first clause ("every report is backed by records it holds") ----
+   For ANY world (any number of browsers and caches, shared or private, any content) and ANY handler invocation - a
+   message, a cache timer with any number of records expiring, a browser timer, an API call -, every serviceAdded /
+   serviceUpdated that any browser emits carries a description that is [Backed] by a set v of records: a PTR named the
+   service's type is in v, the reported hostname and port are those of the first SRV record of the instance in v, the
+   reported attributes are the merge of all TXT records of the instance in v; and every record of v was either held by a
+   cache before this invocation or delivered by it (v is one of the contents the cache passes through while the handler
+   processes the message record by record, or expires records one by one).  By the cache invariant of C05
+   (CacheProofs.GInv, every stored record's last trigger lies in the future) the records held are unexpired; by C06 none
+   of them has TTL 0.
+   The second clause (no stale description while a valid PTR points at the instance) is decided on every run by the
+   acceptor mon_browser with its reference cache (codes 63, 64); it has the open finding `shared-cache-replay`. *)
+Theorem C15_reports_backed now w ev ob sg s :
+  In (ESig ob sg (PService s)) (snd (world_handle now w ev)) -> sg = SIG_serviceAdded \/ sg = SIG_serviceUpdated ->
+  exists v, incl v (sources w ev) /\ Backed v s.
+Proof. intros H R. exact (world_handle_backed now w ev ob sg s H R). Qed.
+Print Assumptions C15_reports_backed.
